@@ -2996,3 +2996,138 @@ func (c *Ctx) RCONVerbatim() []core.Ob {
 	}
 	return obs
 }
+
+// ---------------------------------------------------------------------------
+// R-RECV[value-receiver-decoder]: a ReadFrom / UnmarshalNBT / UnmarshalJSON
+// method with a value receiver decodes into a copy: whatever it assigns to the
+// fields of its receiver is gone when it returns, and the caller goes on with
+// what the variable held before (nil pointers where the peer sent data). A
+// method that stores into fields of its own by-value receiver is such a decoder.
+// (A value receiver that only writes *through* a pointer or slice it holds -
+// pk.Ary, pk.Opt, pk.Tuple - stores nothing into its own fields.)
+
+func (c *Ctx) ValueReceiverDecoders(include func(*ssa.Function) bool) []core.Ob {
+	var obs []core.Ob
+	fns := []*ssa.Function{}
+	for _, fn := range c.Funcs() {
+		if !include(fn) || len(fn.Blocks) == 0 || fn.Signature.Recv() == nil || len(fn.Params) == 0 || fn.Parent() != nil {
+			continue
+		}
+		switch fn.Name() {
+		case "ReadFrom", "UnmarshalNBT", "UnmarshalJSON", "UnmarshalText", "UnmarshalBinary":
+		default:
+			continue
+		}
+		if _, isPtr := fn.Signature.Recv().Type().Underlying().(*types.Pointer); isPtr {
+			continue
+		}
+		if _, isStruct := fn.Signature.Recv().Type().Underlying().(*types.Struct); !isStruct {
+			continue
+		}
+		fns = append(fns, fn)
+	}
+	sortFns(fns)
+	for _, fn := range fns {
+		recv := fn.Params[0]
+		// the receiver's spill slot
+		var slot *ssa.Alloc
+		if recv.Referrers() != nil {
+			for _, r := range *recv.Referrers() {
+				if st, ok := r.(*ssa.Store); ok && st.Val == ssa.Value(recv) {
+					if al, ok := st.Addr.(*ssa.Alloc); ok {
+						slot = al
+					}
+				}
+			}
+		}
+		o := core.Ob{Rule: "R-RECV", Key: "value-receiver-decoder:" + core.FnName(fn), Pos: c.P.Pos(fn.Pos()), Func: core.FnName(fn), Armed: true, Status: core.OK,
+			Want: "a decoding method with a value receiver assigns nothing to the fields of that receiver (the assignments would be made to a copy)"}
+		if slot != nil {
+			for _, b := range fn.Blocks {
+				for _, in := range b.Instrs {
+					switch x := in.(type) {
+					case *ssa.Store:
+						if fa, ok := x.Addr.(*ssa.FieldAddr); ok && fa.X == ssa.Value(slot) {
+							st := deref(slot.Type()).Underlying().(*types.Struct)
+							o.Status, o.Pos = core.Violated, c.P.Pos(x.Pos())
+							o.Got = "the field " + st.Field(fa.Field).Name() + " of the by-value receiver is assigned: the decoded value is stored into a copy and lost, the caller's variable keeps what it held"
+						}
+					case ssa.CallInstruction:
+						// the address of a receiver field handed to a decoder: (*pk.VarInt)(&p.ID).ReadFrom(r)
+						for _, a := range x.Common().Args {
+							if fa, ok := stripConv(a).(*ssa.FieldAddr); ok && fa.X == ssa.Value(slot) {
+								switch x.Common().StaticCallee().Name() {
+								case "ReadFrom", "UnmarshalNBT", "UnmarshalJSON", "Decode", "Scan":
+									st := deref(slot.Type()).Underlying().(*types.Struct)
+									o.Status, o.Pos = core.Violated, c.P.Pos(x.Pos())
+									o.Got = "the field " + st.Field(fa.Field).Name() + " of the by-value receiver is decoded into: the value is read into a copy and lost"
+								}
+							}
+						}
+					}
+				}
+			}
+		}
+		obs = append(obs, o)
+	}
+	return obs
+}
+
+// ---------------------------------------------------------------------------
+// T-KIND[map-key]: "structs and string-keyed maps become compounds". The
+// decoder refuses a map whose key type is not a string; the encoder names each
+// entry by its key, and for a key that is neither a string nor a Stringer
+// reflect's String() yields the same placeholder ("<int32 Value>") for every
+// entry. Where an encoder function of the package ranges over a reflected map
+// (MapRange / MapKeys), a test of the key type's kind with an error exit lies
+// on a dominating block - the sibling of the decoder's test.
+
+func (c *Ctx) MapKeyKindChecked(pkg string) []core.Ob {
+	var obs []core.Ob
+	fns := []*ssa.Function{}
+	for _, fn := range c.Funcs() {
+		if inPkgs(fn, pkg) && len(fn.Blocks) > 0 {
+			fns = append(fns, fn)
+		}
+	}
+	sortFns(fns)
+	for _, fn := range fns {
+		k := 0
+		for _, ci := range callsIn(fn, func(n string, _ *ssa.CallCommon) bool {
+			return n == "reflect.(Value).MapRange" || n == "reflect.(Value).MapKeys"
+		}) {
+			k++
+			o := core.Ob{Rule: "T-KIND", Key: fmt.Sprintf("map-key:%s#%d", core.FnName(fn), k), Pos: c.P.Pos(ci.Pos()), Func: core.FnName(fn), Armed: true, Status: core.OK,
+				Want: "before the entries of a reflected map are written under their keys, the key type's kind is tested (string, or a Stringer) with an error exit"}
+			tested := false
+			for _, kc := range callsIn(fn, func(n string, _ *ssa.CallCommon) bool { return strings.HasSuffix(n, ".Key") && strings.HasPrefix(n, "reflect.") }) {
+				kv, ok := kc.(ssa.Value)
+				if !ok || kv.Referrers() == nil {
+					continue
+				}
+				// Key().Kind() compared, on a block that dominates the range, with one side failing
+				for _, r := range *kv.Referrers() {
+					kind, ok := r.(*ssa.Call)
+					if !ok || !strings.HasSuffix(calleeName(kind.Common()), ".Kind") || kind.Referrers() == nil {
+						continue
+					}
+					for _, u := range *kind.Referrers() {
+						cmp, ok := u.(*ssa.BinOp)
+						if !ok || cmp.Referrers() == nil {
+							continue
+						}
+						if cmp.Block() == ci.Block() || cmp.Block().Dominates(ci.Block()) {
+							tested = true
+						}
+					}
+				}
+			}
+			if !tested {
+				o.Status = core.Violated
+				o.Got = "no test of the key type: a map[int32]string is written with every entry under the key \"<int32 Value>\" (and the decoder refuses such a map)"
+			}
+			obs = append(obs, o)
+		}
+	}
+	return obs
+}
